@@ -28,6 +28,10 @@ func (pc *ProgramCtx) setupRedirects() {
 		if k <= 0 {
 			continue
 		}
+		if name[:k] == "OsFile" {
+			pc.prog.redirect["(*os.File)."+name[k+1:]] = f
+			continue
+		}
 		pkg := strings.ToLower(name[:k])
 		pkg = strings.ReplaceAll(pkg, "0", "/")
 		pc.prog.redirect[pkg+"."+name[k+1:]] = f
